@@ -5,6 +5,7 @@ import (
 	"go/constant"
 	"go/token"
 	"go/types"
+	"math"
 	"sort"
 	"strings"
 
@@ -1256,4 +1257,79 @@ func ruleResolveErrorsChecked(c *Ctx, rule string) {
 // errors of the resolution code that are ignored on purpose on the pinned tree (function:callee -> reason)
 var resolveErrorsIgnored = map[string]string{
 	"anchor-registrar": "the function that enters an anchor into a resource's table (setAnchor) reports a second declaration of an anchor name in one resource; the resolver keeps the first declaration (children are walked in sorted order) and goes on - no reference is left unresolved by this, and the JSON Schema specification leaves duplicate anchors undefined",
+}
+
+func init() {
+	p := Properties["C05"]
+	p.Rules = append(p.Rules, Rule{"C05/integer-keyword-range", ruleC05IntegerRange})
+}
+
+// The integer-valued keywords (minLength, maxItems ...) are read into an int with the same range on every platform:
+// the decoder rejects exactly the values outside [MinInt32, MaxInt32]. Each comparison of the decoded number with a
+// constant at one of the two ends is evaluated on the values next to that end: MaxInt32 is accepted and MaxInt32+1
+// rejected, MinInt32 accepted and MinInt32-1 rejected. (`>=` for `>` makes a schema that Marshal wrote unreadable.)
+func ruleC05IntegerRange(c *Ctx) {
+	const rule = "C05/integer-keyword-range"
+	n := 0
+	for _, fn := range c.Closure(rule, "UNM").Sorted() {
+		core.EachInstr(fn, func(i ssa.Instruction) {
+			bo, ok := i.(*ssa.BinOp)
+			if !ok {
+				return
+			}
+			switch bo.Op {
+			case token.LSS, token.GTR, token.LEQ, token.GEQ:
+			default:
+				return
+			}
+			x, kc, op := bo.X, (*ssa.Const)(nil), bo.Op
+			if k, isK := bo.Y.(*ssa.Const); isK {
+				kc = k
+			} else if k, isK := bo.X.(*ssa.Const); isK {
+				kc, x = k, bo.Y
+				op = map[token.Token]token.Token{token.LSS: token.GTR, token.GTR: token.LSS, token.LEQ: token.GEQ, token.GEQ: token.LEQ}[op]
+			}
+			if kc == nil || kc.Value == nil || kc.Value.Kind() != constant.Int || !isIntType(x.Type()) {
+				return
+			}
+			kv, exact := constant.Int64Val(kc.Value)
+			if !exact {
+				return
+			}
+			var end string
+			var inside, outside int64
+			switch {
+			case kv >= math.MaxInt32-1 && kv <= math.MaxInt32+1:
+				end, inside, outside = "MaxInt32", math.MaxInt32, math.MaxInt32+1
+			case kv <= math.MinInt32+1 && kv >= math.MinInt32-1:
+				end, inside, outside = "MinInt32", math.MinInt32, math.MinInt32-1
+			default:
+				return
+			}
+			// which outcome of the comparison rejects: the successor that returns an error
+			if bo.Referrers() == nil {
+				return
+			}
+			for _, r := range *bo.Referrers() {
+				ifi, ok := r.(*ssa.If)
+				if !ok {
+					continue
+				}
+				tErr := blockReturnsErrorLocal(ifi.Block().Succs[0])
+				fErr := blockReturnsErrorLocal(ifi.Block().Succs[1])
+				if tErr == fErr {
+					continue
+				}
+				n++
+				holds := func(v int64) bool {
+					return constant.Compare(constant.MakeInt64(v), op, constant.MakeInt64(kv))
+				}
+				rej := func(v int64) bool { return holds(v) == tErr }
+				okEnd := !rej(inside) && rej(outside)
+				c.R.Check(okEnd, rule, core.FuncName(fn)+":"+end, c.pos(bo), "the range test accepts "+end+" and rejects the next value beyond it",
+					fmt.Sprintf("the range test at the %s end (x %s %d) accepts %d: %v and rejects %d: %v; it must accept the first and reject the second: an integer keyword equal to the bound, which Marshal writes, cannot be read back (or a value one beyond it is accepted on 64-bit platforms only)", end, op, kv, inside, !rej(inside), outside, rej(outside)))
+			}
+		})
+	}
+	c.R.Floor(rule, "range tests at the ends of the 32-bit range in the decoder", n, 2)
 }
